@@ -155,7 +155,10 @@ def resolve_local_links(
         else:
             fspath = source.parent / Path(*path.split("/"))
         try:
-            fspath = fspath.resolve()
+            # NB: resolve() gives up part way (returning a partly unresolved
+            # path) when it meets a symlink loop; resolving once more makes
+            # sure the containment check below sees a fully resolved path.
+            fspath = fspath.resolve().resolve()
         except ValueError:
             # E.g. an (encoded) null character: cannot name any file
             raise LinkToNonExistentFileError(
@@ -306,7 +309,10 @@ def embed_local_links_as_data_urls(
         else:
             fspath = source.parent / Path(*path.split("/"))
         try:
-            fspath = fspath.resolve()
+            # NB: resolve() gives up part way (returning a partly unresolved
+            # path) when it meets a symlink loop; resolving once more makes
+            # sure the containment check below sees a fully resolved path.
+            fspath = fspath.resolve().resolve()
         except ValueError:
             # E.g. an (encoded) null character: cannot name any file
             raise LinkToNonExistentFileError(
